@@ -3,16 +3,20 @@
 spec      : spec/Routing.tla.  Path templates are token sequences (Lit | Star | DStar, one named capture), field
             values are segment sequences over character classes; Matches/Capture are written from AIP-4222, the
             explicit header is a last-wins fold (one BuildParam step per routing parameter), the implicit header has
-            one pair per variable of the primary http binding; Encode/Send/Decode model the header text.
+            one pair per variable of the primary http binding; Encode/Send/Decode model the header text.  Routing
+            fields may be declared proto3 `optional` and then be unset or explicitly "" (both EMPTY: no contribution);
+            a paginated method is listed over 2..3 pages and every page fetch (NextPage) is a call that owes the header.
 spec->code: TLC enumerates (exhaustive configs) and samples (-simulate, seeded) routing rules x request values and
             prints, per case, the header the specification predicts.  Every distinct rule becomes one method (with
             its own request message) of a generated API (~30 methods per API, transport grpc+rest); the emitted sync
             client, asyncio client (loopback gRPC server, invocation metadata) and REST client (loopback HTTP server,
-            request headers) are called with every request and the pairs read by urllib.parse.parse_qsl are compared.
-code->spec: per case one trace (invoke / encode <raw text classified character by character> / send <parse_qsl
-            pairs> / refuse, for the three client paths) validated by spec/RoutingTrace.tla; all invariants of Routing
-            (last-wins, no header when nothing matches, implicit pairs, original keys, URL-encoding, agreement) are
-            evaluated after every step, including the silent steps of the fold.
+            request headers) are called with every request - listings are iterated to the end - and the pairs read by
+            urllib.parse.parse_qsl from EVERY call that reached the server are compared.
+code->spec: per case one trace (invoke / fetch <page k> / encode <raw text classified character by character> / send
+            <parse_qsl pairs> / refuse, for the three client paths, every event tagged with its page index) validated
+            by spec/RoutingTrace.tla; all invariants of Routing (last-wins, no header when nothing matches, implicit
+            pairs, original keys, URL-encoding, agreement) are evaluated after every step, including the silent steps
+            of the fold.
 """
 import json
 import os
